@@ -22,8 +22,8 @@ DISTINCT_KEY = "cases"
 NSHARDS = {"quick": 8, "thorough": 16}
 FLOORS = {"quick": {"contract_judged": 3000, "layout_lines_checked": 60000, "aligned_values_checked": 5000, "distinct:option-sets": 25,
                     "distinct:line-kinds": 25},
-          "thorough": {"contract_judged": 100000, "layout_lines_checked": 2000000, "aligned_values_checked": 100000,
-                       "distinct:option-sets": 576, "distinct:line-kinds": 30}}
+          "thorough": {"contract_judged": 35000, "layout_lines_checked": 800000, "aligned_values_checked": 100000,
+                       "distinct:option-sets": 400, "distinct:line-kinds": 30}}
 ASSUMPTIONS = ["mf/reader.py + mf/printcheck.py read the output independently of the printer",
                "simple keywords for the alignment clause = scalar / list valued keywords and repeatable keywords of one object "
                "(CONFIG, key-value blocks, PROJECTION/POINTS/PATTERN and child blocks excluded)"]
